@@ -502,7 +502,9 @@ class Evaluator:
                 if l.get('kind') == 'DeclRefExpr':
                     env[(l.get('referencedDecl') or {}).get('id')] = self.ev(c[1], env)
             elif x.get('kind') in ('CallExpr', 'CXXMemberCallExpr', 'CXXOperatorCallExpr'):
-                r = self.call_stmt(x, env, trace)
+                r = self.local_lambda_stmt(x, env, trace)
+                if r is None:
+                    r = self.call_stmt(x, env, trace)
                 if r is not None:
                     for y in r:
                         yield y
@@ -511,6 +513,58 @@ class Evaluator:
             return
         self.unsupported.append('%s at %s' % (k, locstr(n)))
         yield None, env
+
+    def local_lambda_stmt(self, x, env, trace):
+        """`check(v, 0);` where check is a local variable initialised with a lambda expression (a macro turned
+        into a lambda): the lambda body is executed in place with the arguments bound; its throws are the
+        caller's.  None when x is not such a call."""
+        if x.get('kind') != 'CXXOperatorCallExpr':
+            return None
+        c = children(x)
+        if len(c) < 2 or (strip(c[0]).get('referencedDecl') or {}).get('name') != 'operator()':
+            return None
+        obj = strip(c[1])
+        if obj.get('kind') != 'DeclRefExpr':
+            return None
+        d = self.tu.ids.get((obj.get('referencedDecl') or {}).get('id'))
+        if d is None or d.get('kind') != 'VarDecl':
+            return None
+        lam = None
+        for y in walk(d):
+            if y.get('kind') == 'LambdaExpr':
+                lam = y
+                break
+        if lam is None:
+            return None
+        params, body = [], None
+        for y in children(lam):
+            if y.get('kind') == 'CXXRecordDecl':
+                for m in children(y):
+                    if m.get('kind') == 'CXXMethodDecl' and m.get('name') == 'operator()':
+                        params = [p for p in children(m) if p.get('kind') == 'ParmVarDecl']
+            elif y.get('kind') == 'CompoundStmt':
+                body = y
+        args = c[2:]
+        if body is None or len(params) != len(args):
+            return None
+        env2 = dict(env)
+        for p, a in zip(params, args):
+            env2[p['id']] = self.ev(a, env)
+            sa_ = strip(a)
+            if sa_.get('kind') == 'DeclRefExpr':
+                aid = (sa_.get('referencedDecl') or {}).get('id')
+                for k_, v_ in list(env.items()):
+                    if isinstance(k_, tuple) and len(k_) == 3 and k_[0] == 'member' and k_[1] == aid:
+                        env2[('member', p['id'], k_[2])] = v_
+        out = []
+        seen_normal = False
+        for st, e in self.exec(body, env2, trace + (('lambda', locstr(lam)),)):
+            if st is not None and st.kind == 'throw':
+                out.append((st, env))
+            elif not seen_normal:
+                seen_normal = True
+                out.append((None, env))
+        return out or None
 
     def tail_call(self, expr, env, trace):
         """`return helper(args);` where helper is a free function of the repository with a body of several
